@@ -18,7 +18,7 @@ C20_Run == T.mode = "run" =>
   /\ Check("JSON output differs from the library's result on the effective input", (T.libst = "ok" /\ T.exit = 0) => T.stdout = T.libjson)
   /\ Check("library returned an error but the binary exited zero", (T.libst # "ok") => T.exit # 0)
   /\ Check("the error message is not on stderr", (T.libst # "ok" /\ T.exit # 0) => T.msgonstderr)
-  /\ Check("a result was printed although the library returned an error", (T.libst # "ok") => T.stdout = "")
+  /\ Check("postings were printed although the library returned an error", (T.libst # "ok") => ~T.resultprinted)
 C20_Check == T.mode = "check" =>
   /\ Check("the binary crashed (panic / signal)", ~T.crashed)
   /\ Check("exit status does not reflect the presence of error-severity diagnostics", (T.exit # 0) <=> (T.nerr >= 1))
